@@ -69,5 +69,16 @@ def handle : Handler := fun cmd j =>
       | _ => none
     pure (Json.arr ((sourceBashrcs items).map fun l => match l with
       | .next => Json.str "next" | .failed => Json.str "failed" | .death => Json.str "death").toArray)
+  | "c35.handler" => do
+    -- {"extra": [command names], "lines": [lines]} -> [[called names], end]
+    let e ← getStrs j "extra"
+    let p ← getStrs j "lines"
+    let r := handlerSession (e.map String.toList) (p.map String.toList)
+    let fin := match r.2 with
+      | .finished => Json.str "finished"
+      | .unhandled l => Json.arr #[Json.str "unhandled", ofChars l]
+      | .dry => Json.str "dry"
+      | .outside => Json.str "outside"
+    pure (Json.arr #[ofStrs r.1, fin])
   | _ => none
 end Pkgcore.Driver.C35
